@@ -131,6 +131,18 @@ TREE_KINDS = {0: ["spin", "spin", "sho", "elec"], 1: ["spin", "elec", "elec", "s
 
 @st.composite
 def tree_cases(draw, tier):
+    if draw(st.integers(0, 4)) == 0:
+        # many nodes (11-14 spins): file keys with two-digit node numbers; only the round trip itself is checked (no dense follow-up)
+        n = draw(st.integers(11, 14))
+        q = draw(st.sampled_from([0, 1]))
+        sites = [({"k": "spin", "qn": draw(st.sampled_from([[[0], [1]], [[1], [0]], [[0], [0]]]))} if q else {"k": "spin"}) for _ in range(n)]
+        spec = {"names": draw(st.integers(0, 2)), "sites": sites, "qnmode": q}
+        return {"part": "tree", "big": True, "model": spec, "shape": draw(st.sampled_from(["linear", "binary", "mctdh2", "mctdh3", "t3ns"])),
+                "create": draw(st.sampled_from(["random", "random", "product", "sum"])), "m": draw(st.sampled_from([1, 2, 3])),
+                "q": draw(st.integers(0, 50)), "rng": draw(st.integers(0, 10 ** 6)), "cplx": draw(st.booleans()),
+                "coeff": draw(st.sampled_from([[1.0, 0.0], [0.6, 0.8], [-0.5, 0.0]])),
+                "occ": draw(st.lists(st.integers(0, 3), min_size=1, max_size=5)),
+                "pre": draw(st.lists(st.sampled_from(["canonicalise", "scale"]), max_size=2)), "follow": None}
     q = draw(st.sampled_from([0, 1, 1, 2]))
     spec = draw(gen.model_specs(2, 5, qn=q, kinds=TREE_KINDS[q], max_dim=64))
     for s in spec["sites"]:
@@ -587,6 +599,12 @@ def run_tree(case, r):
         same &= r.check("rt.ttns.coeff", np.ndim(y.coeff) == 0 and complex(y.coeff) == complex(t.coeff), f"{what}: coeff {t.coeff!r} -> {y.coeff!r}")
         same &= r.check("rt.ttns.qntot", np.array_equal(np.asarray(t.qntot), np.asarray(y.qntot)), f"{what}: qntot {t.qntot} -> {y.qntot}")
         if not same:
+            return
+        if case.get("big"):
+            r.classes.append(f"rt.ttns.nodes>={10 if len(t.node_list) > 10 else 0}")
+            ok, d1 = _guard(r, "rt.ttns.big.todense", lambda: tree_dense(y))
+            if ok:
+                r.check_close("rt.ttns.big.dense", d1, tree_dense(t), 0.0, f"{what}: dense vector after the round trip")
             return
         fol = case["follow"]
         terms, _ = scaled_terms(spec, fol["hterms"], fol["hnorm"])
